@@ -113,9 +113,16 @@ theorem default_refused_composite (E : Ext) (C : CExt) (us : List CUnion) (t : I
   case nullable => exact ⟨_, rfl⟩
   all_goals
     simp only [fieldDefault, populateDefault, h]
-    split
-    · exact ⟨_, rfl⟩
-    · exact ⟨_, rfl⟩
+    repeat (first | exact ⟨_, rfl⟩ | split)
+
+/-- A field that carries a default is neither Void nor nullable, also not through aliases (repairs f0802b6, 981a08f:
+`alias V = Void` / `f V = null` and `alias N = Int32?` / `f N = 5` are spec errors), and behind its aliases it is a
+primitive or a union. -/
+theorem default_type_shape (E : Ext) (C : CExt) (us : List CUnion) (t : IrTy) (lit d : Lit)
+    (h : fieldDefault E C us t lit = .ok d) :
+    isVoidLit (unwrapAliases t) = false ∧ (unwrapAliases t).isNullableLit = false ∧ defaultable (unwrapAll t) = true := by
+  obtain ⟨_, _, _, h1, h2, h3⟩ := fieldDefault_ok h
+  exact ⟨h3, h1, h2⟩
 
 theorem default_union_literal_refused (E : Ext) (C : CExt) (us : List CUnion) (cls : String) (lit : Lit)
     (h : ∀ tag, lit ≠ .tagref tag) : ∃ m, fieldDefault E C us (.union cls) lit = .error (.invalid m) := by
@@ -203,8 +210,9 @@ example : fieldDefault exE exC [] (.float "Float64" none none) (.int 1) = .ok (.
     fieldDefault exE exC [] (.list .bool none none) .null =
       invalid "Field cannot have a default: only fields of a primitive or union type can" ∧
     fieldDefault exE exC [] (.alias "ns.L" none (.map (.str none none none) .bool)) .null =
-      invalid "Field cannot have a default: only fields of a primitive or union type can" := by
-  exact ⟨rfl, rfl, rfl, rfl, rfl, rfl, rfl, rfl, rfl⟩
+      invalid "Field cannot have a default: only fields of a primitive or union type can" ∧
+    fieldDefault exE exC [] (.alias "ns.V" none .void) .null = invalid "Struct field cannot have a Void type" := by
+  exact ⟨rfl, rfl, rfl, rfl, rfl, rfl, rfl, rfl, rfl, rfl⟩
 
 /-- a compiler whose pattern test is the runtime's (what repairing D12 gives): the law holds -/
 def anchoredC : CExt := { exC with prefixMatch := exE.patMatch }
